@@ -290,17 +290,30 @@ Section Sign.
 
   (* build_and_sign(signing_keys, auto_required_signers=auto, force_skeys=force) on a builder whose fields are b
      and whose body serializes to body_bytes: the vkey witnesses of the returned transaction.
-     (auto_required_signers and self.scripts and not self.required_signers: every given key becomes a
-     required signer; scenarios of this model have native scripts only, so self.scripts is non-empty exactly
-     when one of the two script lists is.) *)
-  Definition after_auto (auto : bool) (keys : list skey) (b : bdesc) : bdesc :=
-    if auto && negb (match b_native_scripts b ++ b_attached b with [] => true | _ => false end)
-            && (match b_required_signers b with [] => true | _ => false end)
-    then mkB (b_inputs b) (b_collateral b) (map key_hash keys) (b_native_scripts b) (b_attached b)
-             (b_certs b) (b_withdrawals b) (b_voters b) (b_witness_override b)
+     Two steps may fill required_signers first (scenarios of this model have native scripts only, so
+     self.scripts / self.all_scripts are non-empty exactly when one of the two script lists is):
+       build_and_sign: auto_required_signers and self.scripts and not self.required_signers
+                       -> every given key becomes a required signer;
+       build:          is_smart and auto_required_signers is not False and self.required_signers is None
+                       -> the key hashes of inputs and collateral. *)
+  Definition set_required_signers (b : bdesc) (rs : list bytes) : bdesc :=
+    mkB (b_inputs b) (b_collateral b) rs (b_native_scripts b) (b_attached b)
+        (b_certs b) (b_withdrawals b) (b_voters b) (b_witness_override b).
+  Definition after_auto (auto : option bool) (keys : list skey) (b : bdesc) : bdesc :=
+    let has_scripts := negb (match b_native_scripts b ++ b_attached b with [] => true | _ => false end) in
+    let unset := match b_required_signers b with [] => true | _ => false end in
+    if has_scripts && unset then
+      match auto with
+      | Some true => match keys with
+                     | [] => b                       (* required_signers = [] : not None, left alone by build *)
+                     | _ => set_required_signers b (map key_hash keys)
+                     end
+      | None => set_required_signers b (input_vkey_hashes b)
+      | Some false => b
+      end
     else b.
 
-  Definition build_and_sign_witnesses (b : bdesc) (auto force : bool) (keys : list skey) (body_bytes : bytes) : list wit :=
+  Definition build_and_sign_witnesses (b : bdesc) (auto : option bool) (force : bool) (keys : list skey) (body_bytes : bytes) : list wit :=
     sign_witnesses (builder_required (after_auto auto keys b)) force keys (H32 body_bytes).
 End Sign.
 
